@@ -26,7 +26,8 @@ ASSUMPTIONS = [
     "not) must read back as Unknown",
 ]
 REQUIRED = {"table.triples": 44982, "table.bondtypes": 15, "roundtrip.Molecule": 100, "roundtrip.Structure": 50,
-            "roundtrip.ConformerEnsemble": 50, "fixedpoint.text": 200, "bundled.files": 5}
+            "roundtrip.ConformerEnsemble": 50, "fixedpoint.text": 200, "bundled.files": 5,
+            "read.again-after-editing-first-result": 50, "source.atoms-lent-to-another-structure": 20}
 EXHAUSTIVE = False
 CHUNK_TIMEOUT = 900
 TECHNIQUE = "runtime monitoring: write/read/write/read fixed-point oracle + exhaustive atom/bond typing table"
@@ -220,6 +221,12 @@ def run_rand(spec, ctx):
         else:
             cls = getattr(ml, cname)
             x = mol2_safe_molecule(rng, cls)
+        if cname != "ConformerEnsemble" and x.n_atoms >= 2 and rng.random() < 0.2:
+            # the object has lent its atoms to another structure (adopted without copy): it is still the same molecule
+            helper = ml.Promolecule(rng.sample(list(x.atoms), rng.randrange(1, x.n_atoms + 1)))
+            ctx.count("source.atoms-lent-to-another-structure")
+            if rng.random() < 0.5:
+                del helper
         sx = snap(x)
         nt = x.n_atoms >= 2 and (any(b["btype"] != 1 for b in sx.get("bonds", [])) or any(a["atype"] != 1 for a in sx["atoms"]))
         ctx.case(case, dkey=snap_hash(sx), nontrivial=nt, sample=brief(x))
@@ -264,6 +271,23 @@ def run_rand(spec, ctx):
                     ctx.violation(f"{tag}:loads_all-raises:{type(e).__name__}", case=case)
         if not ok:
             continue
+        # ---- reading the same text again after the caller edited the first result gives the text's content again
+        if j % 3 == 0:
+            s_first = snap(y)
+            try:
+                y.name = "edited-by-caller"
+                if y.n_atoms:
+                    y.atoms[0].label = "EDITED"
+                    y.coords[...] = 4321.0
+                y_again = cls.loads_mol2(text1)
+                ctx.count("read.again-after-editing-first-result")
+                d = diff(s_first, snap(y_again))
+                if d:
+                    ctx.violation(f"{tag}:second-read-of-the-same-text-differs:{d[0][0].split('[')[0].strip('.')}", case=case, diff=d[:3])
+                y = y_again
+            except Exception as e:  # noqa
+                ctx.violation(f"{tag}:second-read-of-the-same-text-raises:{type(e).__name__}", case=case, err=repr(e)[:200])
+                continue
         # ---- fixed point
         try:
             text2 = y.dumps_mol2()
